@@ -3,7 +3,7 @@
    hand-written Model/Sig.v, for every definition the parser can produce.
 
    The proofs are symbolic execution, written against the MEANING of the generated code and not its shape:
-   `run` steps the producers at top level (the produce_Q.. equations), evaluates expressions by computation, fuses
+   `run` steps the producers at top level (by computation, the bodies of the loops kept folded), evaluates expressions by computation, fuses
    the loops into flat_map over the lists of the ast.arguments record; `segs` then compares segment by segment
    with the model, each loop body being run on one generic element.  The same script proves the code as it is
    written today, with generators or with closures that append. *)
@@ -11,6 +11,7 @@ From Coq Require Import ZArith NArith List Bool Lia.
 From PydoctorVerif Require Import Base.Sexp Spec.SigStr Model.Sig Model.SigIR Gen.SigCode Proofs.SigProofs.
 Import ListNotations.
 Local Open Scope Z_scope.
+Unset Lia Cache.   (* the cache file in coq/ is shared by concurrent builds *)
 
 Lemma flat_map_map {A B C} (f : B -> list C) (g : A -> B) l : flat_map f (map g l) = flat_map (fun x => f (g x)) l.
 Proof. induction l; cbn; congruence. Qed.
@@ -22,42 +23,20 @@ Proof. reflexivity. Qed.
 Lemma flat_map_nil {A B} (f : A -> list B) : flat_map f [] = [].
 Proof. reflexivity. Qed.
 
-Section Steps.
-  Variable A : value -> value.
-  Lemma produce_QNil e : produce A QNil e = []. Proof. reflexivity. Qed.
-  Lemma produce_QEmit a r e : produce A (QEmit a r) e = eval A a e :: produce A r e. Proof. reflexivity. Qed.
-  Lemma produce_QLet p a r e : produce A (QLet p a r) e = produce A r (bind p (eval A a e) e). Proof. reflexivity. Qed.
-  Lemma produce_QFor_expr p x body r e :
-    produce A (QFor p (SExpr x) body r) e =
-    match as_list (eval A x e) with
-    | Some vs => flat_map (fun v => produce A body (bind p v e)) vs ++ produce A r e
-    | None => VErr :: produce A r e
-    end. Proof. reflexivity. Qed.
-  Lemma produce_QFor_gen p g body r e :
-    produce A (QFor p (SGen g) body r) e =
-    flat_map (fun v => produce A body (bind p v e)) (produce A g e) ++ produce A r e. Proof. reflexivity. Qed.
-  Lemma produce_QIf c th el r e :
-    produce A (QIf c th el r) e =
-    match eval A c e with
-    | VBool true => produce A th e ++ produce A r e
-    | VBool false => produce A el e ++ produce A r e
-    | _ => VErr :: produce A r e
-    end. Proof. reflexivity. Qed.
-  Lemma produce_QAssert c r e :
-    produce A (QAssert c r) e = match eval A c e with VBool true => produce A r e | _ => VErr :: produce A r e end.
-  Proof. reflexivity. Qed.
-End Steps.
+(* enumerate(l, start), as pairs *)
+Fixpoint zenum {A} (s : Z) (l : list A) : list (Z * A) :=
+  match l with [] => [] | x :: r => (s, x) :: zenum (s + 1) r end.
 
-Lemma bind_PVar x v e : bind (PVar x) v e = set e x v. Proof. reflexivity. Qed.
-
-Ltac ev := cbv -[produce bind flat_map map app length nth Z.add Z.sub Z.ltb Z.leb Z.eqb Z.opp Z.of_nat Z.to_nat
+(* evaluation at top level: everything computes except the loop bodies (named sig_body_k in Gen/SigCode.v), which
+   stay folded under their `fun v =>` until the loop has been fused with the list it runs over *)
+Ltac ev := cbv -[produce2 produce1 produce0 sig_body_1 sig_body_2 sig_body_3 sig_body_4 sig_body_5 sig_body_6 sig_body_7 sig_body_8
+                 sig_body_9 sig_body_10 sig_body_11 sig_body_12 sig_body_13 sig_body_14 sig_body_15 sig_body_16
+                 bind_tuple aligned_defaults zenum combine flat_map map app Nat.add Nat.sub length nth Z.add Z.sub Z.ltb Z.leb Z.eqb Z.opp Z.of_nat Z.to_nat
                  unstring_annotation dict_set dict_get fst snd enumerate_from zip_values dict_of_pairs index_value].
-Ltac step := progress (rewrite ?bind_PVar, ?produce_QNil, ?produce_QEmit, ?produce_QLet, ?produce_QFor_expr, ?produce_QFor_gen,
-                               ?produce_QIf, ?produce_QAssert).
 Ltac fuse := repeat (progress (rewrite ?flat_map_app, ?flat_map_map, ?flat_map_flat_map, ?flat_map_cons, ?flat_map_nil,
                                        ?app_nil_r, <- ?app_assoc; cbv beta)).
-Ltac run := repeat (progress (ev; repeat (step; ev); fuse)).
-Ltac evfull := cbv -[length nth Z.add Z.sub Z.ltb Z.leb Z.eqb Z.opp Z.of_nat Z.to_nat
+Ltac run := ev; fuse.
+Ltac evfull := cbv -[aligned_defaults zenum combine map Nat.add Nat.sub length nth Z.add Z.sub Z.ltb Z.leb Z.eqb Z.opp Z.of_nat Z.to_nat
                      unstring_annotation dict_set dict_get fst snd enumerate_from zip_values index_value].
 
 Lemma seg_flat_map {A B} (F : A -> list B) (G : A -> B) l R R' :
@@ -66,6 +45,9 @@ Proof. intros H ->. f_equal. induction l; cbn; [reflexivity|]. rewrite H, IHl. r
 Lemma seg_flat_map_last {A B} (F : A -> list B) (G : A -> B) l :
   (forall x, F x = [G x]) -> flat_map F l = map G l.
 Proof. intros H. induction l; cbn; [reflexivity|]. rewrite H, IHl. reflexivity. Qed.
+
+Lemma seg_one {B} (X : list B) y R R' : X = [y] -> R = R' -> X ++ R = y :: R'.
+Proof. intros -> ->. reflexivity. Qed.
 
 Definition pair_value (x : ast_arg) : value := VTuple [VStr (a_name x); of_opt_expr (shown_annot (a_annot x))].
 Definition pairs_of (d : funcdef) : list value :=
@@ -79,6 +61,10 @@ Ltac segs :=
     [ reflexivity
     | apply seg_flat_map; [pointwise|]
     | apply seg_flat_map_last; pointwise
+    | apply seg_one; [evfull; repeat match goal with
+                                      | |- context [match ?o with Some _ => _ | None => _ end] => destruct o
+                                      | |- context [let (_, _) := ?r in _] => destruct r
+                                      end; evfull; reflexivity|]
     | apply f_equal2; [evfull; repeat match goal with
                                       | |- context [match ?o with Some _ => _ | None => _ end] => destruct o
                                       | |- context [let (_, _) := ?r in _] => destruct r
@@ -114,4 +100,173 @@ Proof.
   rewrite dict_of_pairs_map. unfold annotations_from_function. rewrite build_annotations_fst.
   unfold all_ast_annotations. rewrite fold_left_app.
   destruct (fd_returns d) as [r|]; reflexivity.
+Qed.
+
+(* ---- the parameters built by _handleFunctionDef --------------------------------------------------------- *)
+Lemma enumerate_map {A} (g : A -> value) l : forall s,
+  enumerate_from s (map g l) = map (fun p => VTuple [VInt (fst p); g (snd p)]) (zenum s l).
+Proof. induction l as [|x l IH]; intros s; cbn; [reflexivity|]. rewrite IH. reflexivity. Qed.
+
+Lemma enumerate_app l1 : forall l2 s,
+  enumerate_from s (l1 ++ l2) = enumerate_from s l1 ++ enumerate_from (s + Z.of_nat (length l1)) l2.
+Proof.
+  induction l1 as [|x l1 IH]; intros l2 s; cbn [app enumerate_from length].
+  - rewrite Z.add_0_r. reflexivity.
+  - rewrite IH. do 3 f_equal. lia.
+Qed.
+
+Lemma zip_map {A B} (g : A -> value) (h : B -> value) a : forall b,
+  zip_values (map g a) (map h b) = map (fun p => VTuple [g (fst p); h (snd p)]) (combine a b).
+Proof. induction a as [|x a IH]; intros [|y b]; cbn; try reflexivity. rewrite IH. reflexivity. Qed.
+
+Lemma zenum_In {A} (l : list A) : forall s i x, In (i, x) (zenum s l) -> s <= i < s + Z.of_nat (length l).
+Proof.
+  induction l as [|y l IH]; intros s i x H; cbn in H; [contradiction|].
+  cbn [length]. destruct H as [E | H].
+  - injection E as <- <-. lia.
+  - apply IH in H. lia.
+Qed.
+
+Lemma seg_flat_map_in {A B} (F : A -> list B) (G : A -> B) l R R' :
+  (forall x, In x l -> F x = [G x]) -> R = R' -> flat_map F l ++ R = map G l ++ R'.
+Proof.
+  intros H ->. f_equal. induction l as [|x l IH]; cbn; [reflexivity|].
+  rewrite H by (left; reflexivity). rewrite IH; [reflexivity|]. intros y Hy. apply H. right. exact Hy.
+Qed.
+Lemma seg_flat_map_in_last {A B} (F : A -> list B) (G : A -> B) l :
+  (forall x, In x l -> F x = [G x]) -> flat_map F l = map G l.
+Proof. intros H. rewrite <- (app_nil_r (flat_map F l)), <- (app_nil_r (map G l)). apply seg_flat_map_in; auto. Qed.
+
+Lemma combine_firstn {A B} (l : list A) : forall (X : list B), combine l (firstn (length l) X) = combine l X.
+Proof. induction l as [|x l IH]; intros [|y X]; cbn; try reflexivity. rewrite IH. reflexivity. Qed.
+
+Lemma combine_skipn_zenum {A B} (dflt : B) (l : list A) : forall (s : nat) (al : list B),
+  (s + length l <= length al)%nat ->
+  combine l (skipn s al) = map (fun p => (snd p, nth (Z.to_nat (fst p)) al dflt)) (zenum (Z.of_nat s) l).
+Proof.
+  induction l as [|x l IH]; intros s al H; cbn [combine zenum map length] in *; [reflexivity|].
+  destruct (skipn s al) as [|y ys] eqn:Esk.
+  - exfalso. apply (f_equal (@length _)) in Esk. rewrite skipn_length in Esk. cbn in Esk. lia.
+  - cbn [fst snd]. rewrite Nat2Z.id.
+    assert (Hy : nth s al dflt = y).
+    { rewrite <- (firstn_skipn s al) at 1. rewrite app_nth2 by (rewrite firstn_length; lia).
+      rewrite firstn_length, Nat.min_l by lia. rewrite Nat.sub_diag, Esk. reflexivity. }
+    assert (Hys : skipn (S s) al = ys) by (rewrite skipn_S_tl, Esk; reflexivity).
+    rewrite Hy. f_equal. rewrite <- Hys. rewrite IH by lia. do 2 f_equal. lia.
+Qed.
+
+Definition pos_param (ann : dict) (n : nat) (df : list SigStr.expr) (k : kind) (p : Z * ast_arg) : value :=
+  VParam (add_arg ann (a_name (snd p)) k (nth (Z.to_nat (fst p)) (aligned_defaults n df) None)).
+Definition kw_param (ann : dict) (p : ast_arg * option SigStr.expr) : value :=
+  VParam (add_arg ann (a_name (fst p)) KEYWORD_ONLY (snd p)).
+
+Lemma expected_segments ann a :
+  wf_args a ->
+  map VParam (expected_params ann a) =
+  map (pos_param ann (length (posonlyargs a) + length (args a)) (defaults a) POSITIONAL_ONLY) (zenum 0 (posonlyargs a))
+  ++ map (pos_param ann (length (posonlyargs a) + length (args a)) (defaults a) POSITIONAL_OR_KEYWORD)
+         (zenum (Z.of_nat (length (posonlyargs a))) (args a))
+  ++ map VParam (var_param ann VAR_POSITIONAL (vararg a))
+  ++ map (kw_param ann) (combine (kwonlyargs a) (kw_defaults a))
+  ++ map VParam (var_param ann VAR_KEYWORD (kwarg a)).
+Proof.
+  intros [Hd Hk]. unfold expected_params.
+  set (n := (length (posonlyargs a) + length (args a))%nat).
+  assert (Hal : length (aligned_defaults n (defaults a)) = n) by (apply aligned_length; exact Hd).
+  rewrite !map_app, !map_map. apply f_equal2; [|apply f_equal2; [|reflexivity]].
+  - rewrite combine_firstn.
+    change (aligned_defaults n (defaults a)) with (skipn 0 (aligned_defaults n (defaults a))) at 1.
+    rewrite (combine_skipn_zenum None) by (rewrite Hal; unfold n; lia).
+    rewrite map_map. reflexivity.
+  - rewrite (combine_skipn_zenum None) by (rewrite Hal; unfold n; lia).
+    rewrite map_map. reflexivity.
+Qed.
+
+Lemma aligned_nth_none n df i : (i < n - length df)%nat -> nth i (aligned_defaults n df) None = None.
+Proof. intros H. unfold aligned_defaults. rewrite app_nth1 by (rewrite repeat_length; lia). apply nth_repeat. Qed.
+
+Lemma aligned_nth_some n df i x :
+  (n - length df <= i)%nat -> nth_error df (i - (n - length df)) = Some x ->
+  nth i (aligned_defaults n df) None = Some x.
+Proof.
+  intros H E. unfold aligned_defaults. rewrite app_nth2 by (rewrite repeat_length; lia). rewrite repeat_length.
+  erewrite nth_error_nth; [reflexivity|]. rewrite nth_error_map, E. reflexivity.
+Qed.
+
+Lemma index_value_map {A} (g : A -> value) l z :
+  0 <= z < Z.of_nat (length l) ->
+  exists x, nth_error l (Z.to_nat z) = Some x /\ index_value (map g l) z = g x.
+Proof.
+  intros H. destruct (nth_error l (Z.to_nat z)) as [x|] eqn:E.
+  - exists x. split; [reflexivity|]. unfold index_value. rewrite map_length.
+    replace ((0 <=? z) && (z <? Z.of_nat (length l))) with true
+      by (symmetry; apply andb_true_iff; split; [apply Z.leb_le | apply Z.ltb_lt]; lia).
+    erewrite nth_error_nth; [reflexivity|]. rewrite nth_error_map, E. reflexivity.
+  - apply nth_error_None in E. lia.
+Qed.
+
+(* ---- pointwise execution of a loop body, and the comparison segment by segment ---- *)
+Ltac lens := rewrite ?app_length, ?map_length, ?Nat2Z.inj_add.
+Ltac bools := repeat match goal with
+  | |- context [?a <=? ?b] => let E := fresh "E" in destruct (a <=? b) eqn:E; [apply Z.leb_le in E | apply Z.leb_gt in E]; try lia
+  | |- context [?a <? ?b] => let E := fresh "E" in destruct (a <? b) eqn:E; [apply Z.ltb_lt in E | apply Z.ltb_ge in E]; try lia
+  end.
+Ltac idx := match goal with |- context [index_value (map ?g ?l) ?z] =>
+   let x := fresh "x" in let Ex := fresh "Ex" in let Ei := fresh "Ei" in
+   destruct (index_value_map g l z) as (x & Ex & Ei); [lia|]; rewrite Ei end.
+Ltac al_some := match goal with Ex : nth_error ?df _ = Some ?x |- _ =>
+   rewrite (aligned_nth_some _ df _ x) by (first [lia | (rewrite <- Ex; f_equal; lia)]) end.
+Ltac opts := repeat match goal with
+   | |- context [let (_, _) := ?r in _] => is_var r; destruct r
+   end; repeat match goal with
+   | |- context [dict_get ?k ?d] => destruct (dict_get k d)
+   | |- context [match ?o with Some _ => _ | None => _ end] => is_var o; destruct o
+   end.
+Ltac pw_pos :=
+  let i := fresh "i" in let nm := fresh "nm" in let an := fresh "an" in let Hin := fresh "Hin" in
+  intros [i [nm an]] Hin; apply zenum_In in Hin; evfull; cbn [fst snd]; lens;
+  bools; evfull; cbn [fst snd]; lens;
+  first [ rewrite aligned_nth_none by lia | idx; evfull; cbn [fst snd]; lens; al_some ];
+  opts; evfull; reflexivity.
+Ltac pw_kw :=
+  let nm := fresh "nm" in let an := fresh "an" in let d := fresh "d" in
+  intros [[nm an] d] _; evfull; cbn [fst snd]; opts; evfull; reflexivity.
+Ltac one := evfull; cbn [fst snd]; opts; evfull; reflexivity.
+Ltac segsB :=
+  repeat (progress (repeat rewrite <- app_assoc; cbn [app]));
+  repeat first
+    [ reflexivity
+    | apply seg_flat_map_in; [pw_pos|]
+    | apply seg_flat_map_in_last; pw_pos
+    | apply seg_flat_map_in; [pw_kw|]
+    | apply seg_flat_map_in_last; pw_kw
+    | apply seg_one; [one|]
+    | apply f_equal2; [one|]
+    | one ].
+
+
+Theorem code_parameters_is_model d :
+  wf_args (fd_args d) ->
+  parameters_ir sig_code d =
+  map VParam (expected_params (fst (annotations_from_function (fd_args d) (fd_returns d))) (fd_args d)).
+Proof.
+  intros Hwf. unfold parameters_ir. rewrite (expected_segments _ _ Hwf). destruct Hwf as [Hd Hk].
+  pose proof (code_annotations_is_model d) as HA.
+  remember (fst (annotations_from_function (fd_args d) (fd_returns d))) as ann eqn:Eann. clear Eann.
+  remember (annotations_ir sig_code) as AF eqn:EAF. clear EAF.
+  destruct d as [[po ar va ko kd kw df] ret ov asy].
+  cbn [fd_args posonlyargs args vararg kwonlyargs kwarg kw_defaults defaults] in *.
+  cbn [sig_code c_parameters c_parameters_node]. unfold code_parameters.
+  destruct va as [va|], kw as [kw|]; cbn [var_param map].
+  all: run; rewrite ?HA; run; lens; rewrite ?Hk, ?Z.eqb_refl; cbv iota;
+       rewrite ?map_map; rewrite ?enumerate_app, ?enumerate_map, ?zip_map; lens; rewrite ?Z.add_0_l; fuse; segsB.
+Qed.
+
+(* what the model calls build_params, on the mapping the model computes *)
+Corollary code_parameters_build_params d :
+  wf_args (fd_args d) ->
+  exists ps, build_params (fst (annotations_from_function (fd_args d) (fd_returns d))) (fd_args d) = Ok ps
+             /\ parameters_ir sig_code d = map VParam ps.
+Proof.
+  intros Hwf. eexists. split; [apply build_params_expected; exact Hwf | apply code_parameters_is_model; exact Hwf].
 Qed.
